@@ -178,6 +178,8 @@ CANARIES = [
     ('commit-frees-one-page-too-many', 'C05', 'src/tx.rs', '                freelist.free(self.meta.freelist_page, self.num_freelist_pages);', '                freelist.free(self.meta.freelist_page, self.num_freelist_pages + 1);'),
     ('to-buckets-drops-write-permission', 'C07', 'src/cursor.rs', '        let bucket = self.bucket.clone();\n        let writable = self.writable;\n        Buckets {\n            i: self,', '        let bucket = self.bucket.clone();\n        let writable = false;\n        Buckets {\n            i: self,'),
     ('db-tx-always-writable', 'C06', 'src/db.rs', '        Tx::new(self, writable)', '        Tx::new(self, true)'),
+    ('tx-buckets-hands-out-writable-handles', 'C06', 'src/tx.rs', '            freelist: tx.freelist.clone(),\n            writable: tx.lock.writable(),\n            _phantom: PhantomData,\n        };\n        bucket.cursor().to_buckets()', '            freelist: tx.freelist.clone(),\n            writable: true,\n            _phantom: PhantomData,\n        };\n        bucket.cursor().to_buckets()'),
+    ('bucket-kv-pairs-lists-buckets-too', 'C08', 'src/bucket.rs', '        self.cursor().to_kv_pairs()', '        self.range::<std::ops::RangeFull>(..).to_kv_pairs()'),
 ]
 
 
@@ -243,6 +245,7 @@ EQUIVALENTS = [
     ('eq-open-lock-binding', 'C13', 'src/db.rs', '        file.lock_exclusive()?;\n', '        let locked = file.lock_exclusive();\n        locked?;\n'),
     ('eq-bucket-get-kv-if-let', 'C07', 'src/bucket.rs', '        match b.get(key) {\n            Some(data) => data.into(),\n            None => None,\n        }', '        if let Some(data) = b.get(key) {\n            return data.into();\n        }\n        None'),
     ('eq-cursor-new-preallocates-the-stack', 'C08', 'src/cursor.rs', '            stack: Vec::new(),\n            next_called: false,', '            stack: Vec::with_capacity(4),\n            next_called: false,'),
+    ('eq-bucket-buckets-via-local', 'C07', 'src/bucket.rs', '        self.cursor().to_buckets()', '        let c = self.cursor();\n        c.to_buckets()'),
 ]
 CANARY_EXPECT_NOT_KILLED = set(c[0] for c in EQUIVALENTS)
 CANARIES = CANARIES + EQUIVALENTS
